@@ -69,6 +69,7 @@ def setup():
                     tot = sum([AFF(src.items[r].t, tgt.items[c].t, tb.real(), fb.real()) for r, c in zip(rs, cs)], z3.RealVal(0))
                     best = z3.If(tot > best, tot, best)
         return [(p, Num(best))]
+    v.use("ComputeBounds")   # not called by the current body; keeps a refactoring that consults the bounds analysable
     v.handlers["soundevent.evaluation.affinity.compute_affinity"] = affinity
     v.handlers["scipy.optimize.linear_sum_assignment"] = lsa
     v.handlers["contracts.matching.best_pairing_sum"] = best_sum
